@@ -30,7 +30,7 @@ ASSUMPTIONS = [
     "(the library refuses with ValueError; the statement does not cover that combination)",
     "computed values compared with rtol=atol=1e-12, moved values exactly",
 ]
-MANDATORY = ["stack_ds:dict", "ds-ds:variable-sets-differ", "ds-ds:variable-named-like-a-dimension", "op:take", "op:loc", "op:sel", "op:ix", "op:isel", "op:reduce", "op:take_axis", "op:sort_axis", "op:reindex_axis", "op:reindex_like",
+MANDATORY = ["join:unaligned-secondary-labels-refused", "stack_ds:dict", "ds-ds:variable-sets-differ", "ds-ds:variable-named-like-a-dimension", "op:take", "op:loc", "op:sel", "op:ix", "op:isel", "op:reduce", "op:take_axis", "op:sort_axis", "op:reindex_axis", "op:reindex_like",
              "op:interp_axis", "op:interp_like", "op:ds-scalar", "op:scalar-ds", "op:ds-ds", "op:neg", "op:stack_ds", "op:concatenate_ds",
              "var-lacks-dim", "var-0d", "reindex:missing", "interp:outside", "ds-ds:labels-differ", "ds-ds:layout-differs", "join:align=True"]
 
@@ -58,7 +58,7 @@ def ds_spec(draw, numeric=False, min_vars=1, all_have=None, square=False):
         if all_have and all_have in dsdims and all_have not in vd:
             vd.append(all_have)
         out.append(["v%d" % i, {"dims": vd, "labels": [dlabels[d] for d in vd], "vk": draw(st.sampled_from("ffi")), "base": 10 * i + draw(st.integers(0, 5)),
-                                "attrs": {"units": "u%d" % i}}])
+                                "attrs": {"units": "u%d" % i, "only_v%d" % i: i}}])
     # make sure every dataset dim is used (otherwise it is not a dataset dim)
     used = {d for _, s in out for d in s["dims"]}
     dsdims = [d for d in dsdims if d in used]
@@ -93,10 +93,10 @@ def case_st(draw):
             if op in ("ix", "isel"):
                 n = len(l)
                 idx[dd] = {"scalar": draw(st.integers(-n, n - 1)), "list": draw(gen.position_list(n, 1, 3)),
-                           "slice": ["slice", draw(st.sampled_from([None, 0, 1])), draw(st.sampled_from([None, 1, 2, -1])), None]}[form]
+                           "slice": ["slice", draw(st.sampled_from([None, 0, 1, n - 1])), draw(st.sampled_from([None, 1, 2, -1, 0])), draw(st.sampled_from([None, None, 2, -1, -2]))]}[form]
             else:
                 idx[dd] = {"scalar": draw(st.sampled_from(l)), "list": draw(st.lists(st.sampled_from(l), min_size=1, max_size=3)),
-                           "slice": ["slice", draw(st.sampled_from([None] + l)), draw(st.sampled_from([None] + l)), None]}[form]
+                           "slice": ["slice", draw(st.sampled_from([None] + l)), draw(st.sampled_from([None] + l)), draw(st.sampled_from([None, None, 2, -1, -2]))]}[form]
         p = {"idx": idx, "keepdims": draw(st.sampled_from([False, False, True])) if op == "take" else False}
     elif op == "reduce":
         p = {"f": draw(st.sampled_from(["mean", "std", "var", "median", "sum"])), "by": draw(st.sampled_from(["name", "pos"])),
@@ -175,6 +175,8 @@ def case_st(draw):
                     o[dd] = draw(gen.related_labels(dlabels[dd], core.label_kind(dlabels[dd]), relation="disjoint"))[1]
                 elif align and draw(st.booleans()):
                     o[dd] = draw(gen.related_labels(dlabels[dd], core.label_kind(dlabels[dd]), relation=draw(st.sampled_from(["permuted", "overlapping", "subset"]))))[1]
+                elif not align and len(dlabels[dd]) >= 2 and draw(st.integers(0, 5)) == 0:
+                    o[dd] = list(dlabels[dd][::-1])      # without alignment: the same labels in another order on a secondary dimension must be refused
             others.append(o)
         p = {"others": others, "align": align, "keys": draw(st.sampled_from([None, "str", "dict", "dict-int"])) if op == "stack_ds" else None, "sort": draw(st.booleans()) if align else False,
              "reorder": draw(st.booleans())}        # the later datasets hold the same variables, inserted in another order
@@ -243,6 +245,12 @@ def enumerate_cases(tier):
         for n in (2, 3):
             others = [({"x": [10 * (j + 1) + 1, 10 * (j + 1)]} if op == "concatenate_ds" else {}) for j in range(n - 1)]
             yield "join-align-grid", {"op": op, "ds": two, "dsdims": ["x", "y"], "dim": "x", "p": {"others": others, "align": False, "keys": None, "sort": False, "reorder": True}}
+    # ... and without alignment where a later dataset carries a secondary dimension in another order, a dimension that the FIRST variables do not have
+    for op in ("stack_ds", "concatenate_ds"):
+        for n in (2, 3):
+            for which in range(n - 1):
+                others = [dict(({"x": [10 * (j + 1) + 1, 10 * (j + 1)]} if op == "concatenate_ds" else {}), **({"y": ["b", "a"]} if j == which else {})) for j in range(n - 1)]
+                yield "join-align-grid", {"op": op, "ds": two, "dsdims": ["x", "y"], "dim": "x", "p": {"others": others, "align": False, "keys": None, "sort": False, "reorder": False}}
     # Dataset op Dataset where a variable is laid out differently in the second dataset: square shapes x every subset of
     # {2-d variable transposed, 1-d variable along the other dimension} x which variable comes first x operator
     for labs in ([3, 1, 2], [1, 2], ["b", "a"]):
@@ -431,6 +439,9 @@ def run_case(case):
         expected = [(k, lib(lambda: fresh[k].take_axis(list(p["indices"]), axis=d, indexing=p["indexing"], **kwm), what="per-variable " + what, sig=sig) if k in has else ds[k]) for k in keys]
         res = lib(lambda: ds.take_axis(list(p["indices"]), axis=axis_arg, indexing=p["indexing"], **kwm), what=what, sig=sig)
         check_result(res, expected, what, sig, ds_attrs=DS_ATTRS)
+        # the documented parameter order (indices, axis, indexing, mode), arguments given by position
+        res = lib(lambda: ds.take_axis(list(p["indices"]), axis_arg, p["indexing"], *([p["mode"]] if p.get("mode") else [])), what=what + " [arguments by position]", sig=sig)
+        check_result(res, expected, what + " [arguments by position]", sig, ds_attrs=DS_ATTRS)
     elif op == "sort_axis":
         expected = [(k, lib(lambda: fresh[k].sort_axis(axis=d), what="per-variable " + what, sig=sig) if k in has else ds[k]) for k in keys]
         res = lib(lambda: ds.sort_axis(axis=axis_arg), what=what, sig=sig)
@@ -543,6 +554,20 @@ def run_case(case):
             cl.add("join:align=True")
             if p["sort"]:
                 kw["sort"] = True
+        if not p["align"] and any(dd != d or op == "stack_ds" for o_ in p["others"] for dd in o_) and not (op == "concatenate_ds" and lacks):
+            # a secondary dimension carries the same labels in another order in a later dataset and no alignment was asked for: every
+            # per-variable join that sees the dimension refuses, and so does the dataset-level call (whichever variable comes first)
+            refused = []
+            for k in keys:
+                try:
+                    da.stack([x[k] for x in dss], axis="stk") if op == "stack_ds" else da.concatenate([x[k] for x in dss], axis=d)
+                except ValueError:
+                    refused.append(k)
+            if refused:
+                core.must_raise((lambda: da.stack_ds(list(dss), axis="stk")) if op == "stack_ds" else (lambda: da.concatenate_ds(list(dss), axis=d)), (ValueError,),
+                                what + " [variables %s are refused one by one]" % refused, sig=sig)
+                cl.add("join:unaligned-secondary-labels-refused")
+                return {"classes": sorted(cl), "nontrivial": True}
         if op == "stack_ds":
             ks = ["k%d" % i for i in range(len(dss))][::-1] if p["keys"] == "str" else None
             kws = dict(kw)
